@@ -180,6 +180,18 @@ pub fn judge(case: &Case, l: &mut Local) {
             }
             l.check("no interior crossing of any edge is missed", "", complete, mk, || format!("o {:?} d {:?}: {:?}", o, d, fast));
             l.check("list strictly ascending", "", fast.windows(2).all(|w| w[0].0 < w[1].0), mk, || format!("{:?}", fast));
+            // a crossing exactly at an end vertex (exactly representable on lattice inputs) belongs to
+            // the closed end edge and must be reported
+            if lattice {
+                for (ve, other) in [(pts[0], pts[1]), (pts[ne], pts[ne - 1])] {
+                    let e = other - ve;
+                    if side(o, &d, &ve) == 0.0 && (d.x * e.y - d.y * e.x).abs() > 1e-9 {
+                        l.bucket("line exactly through an end vertex");
+                        let reported = fast.iter().any(|(t, _)| (ray.point_at(*t) - ve).norm() <= 1e-9 * (1.0 + t.abs()));
+                        l.check("a crossing exactly at an end vertex of the polyline is reported", "", reported, mk, || format!("o {:?} d {:?}: end vertex {:?} not among {:?}", o, d, ve, fast));
+                    }
+                }
+            }
 
             // derived answers
             let sp = curve.try_create_spanning_ray(&ray);
@@ -195,7 +207,12 @@ pub fn judge(case: &Case, l: &mut Local) {
                 format!("o {:?} d {:?}: crossings {:?} spanning {:?}", o, d, fast, sp.map(|s| s.ray()))
             });
             let mx = max_intersection(&pl, &ray);
-            l.check("largest intersection", "", mx == fast.last().map(|x| x.0), mk, || format!("{:?} vs {:?}", mx, fast.last()));
+            let mx_ok = match (mx, fast.last()) {
+                (Some(a), Some(b)) => (a - b.0).abs() <= 1e-9 * (1.0 + a.abs()),
+                (None, None) => true,
+                _ => false,
+            };
+            l.check("largest intersection", "", mx_ok, mk, || format!("{:?} vs {:?}", mx, fast.last()));
             let far = farthest_point_direction_distance(&pl, &ray);
             let want = pts.iter().map(|p| d.normalize().dot(&(p - o))).fold(f64::MIN, f64::max);
             l.check("farthest projected vertex", "", (far - want).abs() <= 1e-9 * ext, mk, || format!("{} vs {}", far, want));
@@ -251,7 +268,7 @@ pub fn run(tier: Tier) -> i32 {
     let mut cx = Ctx::new("C06", tier, "exploration");
     cx.rule = "every vertex sequence over the 4x4 lattice up to the length bound, and 7 structured large families x 15 sizes (5..5000 edges: every QBVH occupancy and depth), x origins on a grid (inside, outside, behind, on vertices) x 14 directions (axis-parallel, zero components, non-unit, both signs, nearly parallel to edges); oracle = the property's own definition (sort+dedup of the per-edge routine over every edge) plus an independent closed form. distinct = distinct polylines".into();
     cx.bounds = json!({"lattice": 4, "seq_len": tier.pick(4, 5), "origin_subsampling_longest": tier.pick(3, 5), "directions": DIRS.len(), "large_sizes": gen::LARGE_SIZES});
-    cx.require(&["lattice polyline", "structured large polyline", "line misses", "two crossings", "other crossing count", "axis-parallel line"]);
+    cx.require(&["line exactly through an end vertex", "lattice polyline", "structured large polyline", "line misses", "two crossings", "other crossing count", "axis-parallel line"]);
     cx.assume("an unmatched parameter is gray only when the contact is at a vertex whose two neighbours lie on the same side of the line (graze) or at an end vertex; a transversal crossing through a vertex must be reported");
     let cs = cases(tier);
     let l = sweep(&cs, judge);
